@@ -3,8 +3,11 @@
    and policy: the result is exactly the declarations of the (blank-trimmed, semicolon-terminated)
    value, in order, whose lower-cased, prefix-stripped property has a rule (element rules: explicit
    entry, else merged pattern entries; then global rules) accepting the lower-cased value with CSS
-   escapes removed, rebuilt as "prop: value" joined by "; "; a parse error or nothing left gives the
-   empty value (the attribute is then dropped, see C02); a property without any rule is never kept.
+   escapes removed, and whose value no undecodable escape has emptied (fix F16: such a declaration
+   is dropped instead of being offered to the matchers as the empty string, which the default
+   font-family and font handlers accept: C10_undecodable_dropped), rebuilt as "prop: value" joined
+   by "; "; a parse error or nothing left gives the empty value (the attribute is then dropped, see
+   C02); a property without any rule is never kept.
    Missing: that removeUnicode decodes as a browser does (false outside a well-behaved class, a
    recorded finding) and douceur's tokenisation vs a browser's. *)
 From Coq Require Import List NArith Bool.
@@ -21,13 +24,23 @@ Section C10.
     match css_decls I (style_input val) with
     | None => []
     | Some decs => join (map (fun d => fst d ++ [58; 32] ++ snd d)
-                             (filter (fun d => existsb (style_accepts I (seen_value (snd d))) (rules_for I p elem (fst d))) decs)) [59; 32]
+                             (filter (fun d => decodable (snd d) && existsb (style_accepts I (seen_value (snd d))) (rules_for I p elem (fst d))) decs)) [59; 32]
     end.
   Proof. exact (sanitize_styles_spec I p). Qed.
 
   Theorem C10_no_rule_no_keep : forall elem prop val, rules_for I p elem prop = [] ->
     decl_allowed I p (element_styles I p elem) prop val = false.
   Proof. exact (unruled_property_dropped I p). Qed.
+
+  (* a declaration whose value an undecodable escape has emptied is never kept, whatever the matchers accept *)
+  Theorem C10_undecodable_dropped : forall elem prop val, val <> [] -> seen_value val = [] ->
+    decl_allowed I p (element_styles I p elem) prop val = false.
+  Proof.
+    intros elem prop val Hv Hs. rewrite (decl_allowed_spec M U R I p). unfold decodable. rewrite Hs.
+    destruct val; [congruence | reflexivity].
+  Qed.
+  Example C10_undecodable_example : seen_value (B"\110000 expression(alert(1))") = [].
+  Proof. vm_compute. reflexivity. Qed.
 
   (* a style attribute whose filtered value is empty is removed *)
   Theorem C10_empty_dropped : forall elem aps a, key_is (B"style") a = true -> has_style_policies I p elem = true ->
@@ -40,4 +53,5 @@ End C10.
 
 Print Assumptions C10_filter.
 Print Assumptions C10_no_rule_no_keep.
+Print Assumptions C10_undecodable_dropped.
 Print Assumptions C10_empty_dropped.
